@@ -117,7 +117,14 @@ fn main() {
             let mut violations = 0u64;
             for k in start..start + n {
                 let mut rng = rng::Rng::for_case(seed, check.id(), k);
+                let t0 = std::time::Instant::now();
                 let r = fw::guarded(|| check.run_case(tier, k, &mut rng, &mut out));
+                if let Ok(ms) = std::env::var("RMLV_SLOW_MS") {
+                    let ms: u128 = ms.parse().unwrap_or(100);
+                    if t0.elapsed().as_millis() >= ms {
+                        println!("SLOW case={} ms={}", k, t0.elapsed().as_millis());
+                    }
+                }
                 if let Err((loc, msg)) = r {
                     println!("VIOLATION property={} inproc case={} escaped panic at {}: {}", check.id(), k, loc, msg);
                     violations += 1;
